@@ -88,6 +88,186 @@ theorem addrOffset_ok {ss : List Stmt} {l r : Value} {op : Char} {m : Mode} {ae 
   rw [addrOffset_expr]
   cases addrOperand ss l <;> cases addrOperand ss r <;> simp
 
+private theorem numericOfInt_isNumeric' {v : Int} {h : Option Nat} {m : Mode} {x : Value}
+    (hx : numericOfInt v h m = .ok x) : x.isNumeric = true := by
+  unfold numericOfInt at hx
+  split at hx
+  · cases hx
+  · cases hx; rfl
+
+theorem addrCombine_isNumeric {op : Char} {a b : Int} {x : Value} (hx : addrCombine op a b = .ok x) :
+    x.isNumeric = true := by
+  unfold addrCombine at hx
+  dsimp only at hx
+  split at hx
+  · cases hx
+  · split at hx
+    · rename_i hn; cases hx; exact numericOfInt_isNumeric' hn
+    · cases hx
+
+/-- what `calculate_address_offset` gives is a number -/
+theorem addrOffset_isNumeric {ss : List Stmt} {v x : Value} (hx : addrOffset ss v = .ok x) : x.isNumeric = true := by
+  cases v with
+  | expr l r op m ae =>
+    obtain ⟨a, b, _, _, h3⟩ := addrOffset_ok.1 hx
+    exact addrCombine_isNumeric h3
+  | _ => cases hx
+
+/-! ### the per-entry step of `evalSyms` (batch 4: an EQU defined by an expression is replaced by its value) -/
+
+/-- what `evalSyms` makes of one table entry: an expression entry is resolved against the table as it was, a label
+expression is then evaluated on the final addresses; every other entry is kept -/
+def evalSym (ss : List Stmt) (t : SymTab) (v : Value) : Outcome Value :=
+  if v.isExpression || v.isAddrExpr then
+    match v.resolve t with
+    | .error _ => .diag
+    | .ok r =>
+      match (if r.isAddrExpr then addrOffset ss r else .ok r) with
+      | .ok r' => .ok (if r'.isNumeric then r' else v)
+      | o => o
+  else .ok v
+
+theorem evalSyms_nil (ss : List Stmt) (t : SymTab) : evalSyms ss t [] = .ok [] := rfl
+
+theorem evalSyms_cons (ss : List Stmt) (t : SymTab) (k : Str) (v : Value) (rest : SymTab) :
+    evalSyms ss t ((k, v) :: rest) =
+      match evalSym ss t v with
+      | .ok v' => (match evalSyms ss t rest with | .ok r => .ok ((k, v') :: r) | o => o)
+      | .diag => .diag
+      | .internal => .internal
+      | .diverged => .diverged := by
+  rw [evalSyms]; rfl
+
+/-- an entry that is not an expression (a label, an EQU of a number, ...) is kept -/
+theorem evalSym_plain (ss : List Stmt) (t : SymTab) {v : Value} (h : ∀ l r op m ae, v ≠ .expr l r op m ae) :
+    evalSym ss t v = .ok v := by
+  cases v <;> first | rfl | exact absurd rfl (h _ _ _ _ _)
+
+theorem evalSym_address (ss : List Stmt) (t : SymTab) (i : Nat) (m : Mode) :
+    evalSym ss t (.address i m) = .ok (.address i m) := rfl
+
+theorem evalSym_numeric (ss : List Stmt) (t : SymTab) (i : Nat) (h : Option Nat) (m : Mode) (n : Bool) :
+    evalSym ss t (.numeric i h m n) = .ok (.numeric i h m n) := rfl
+
+/-- an expression entry: `resolve`, then `addrOffset` for a label expression; a numeric result replaces the entry -/
+theorem evalSym_expr (ss : List Stmt) (t : SymTab) (l r : Value) (op : Char) (m : Mode) (ae : Bool) :
+    evalSym ss t (.expr l r op m ae) =
+      match (Value.expr l r op m ae).resolve t with
+      | .error _ => .diag
+      | .ok x =>
+        match (if x.isAddrExpr then addrOffset ss x else .ok x) with
+        | .ok r' => .ok (if r'.isNumeric then r' else .expr l r op m ae)
+        | o => o := by
+  cases ae <;> rfl
+
+/-- an entry is kept or becomes a number -/
+theorem evalSym_ok_cases {ss : List Stmt} {t : SymTab} {v v' : Value} (h : evalSym ss t v = .ok v') :
+    v' = v ∨ (v'.isNumeric = true ∧ ∃ l r op m ae, v = .expr l r op m ae) := by
+  cases v with
+  | expr l r op m ae =>
+    rw [evalSym_expr] at h
+    split at h
+    · cases h
+    · split at h
+      · rename_i r' _
+        simp only [Outcome.ok.injEq] at h
+        subst h
+        by_cases hn : r'.isNumeric = true
+        · right; rw [if_pos hn]; exact ⟨hn, _, _, _, _, _, rfl⟩
+        · left; rw [if_neg hn]
+      · rename_i hne
+        exact absurd h (hne v')
+  | _ => left; cases h; rfl
+
+theorem evalSyms_ok_cons {ss : List Stmt} {t : SymTab} {k : Str} {v : Value} {rest r : SymTab}
+    (h : evalSyms ss t ((k, v) :: rest) = .ok r) :
+    ∃ v' r', evalSym ss t v = .ok v' ∧ evalSyms ss t rest = .ok r' ∧ r = (k, v') :: r' := by
+  rw [evalSyms_cons] at h
+  cases h1 : evalSym ss t v with
+  | ok v' =>
+    rw [h1] at h
+    dsimp only at h
+    cases h2 : evalSyms ss t rest with
+    | ok r' => rw [h2] at h; simp only [Outcome.ok.injEq] at h; exact ⟨v', r', rfl, rfl, h.symm⟩
+    | _ => rw [h2] at h; cases h
+  | _ => rw [h1] at h; cases h
+
+theorem evalSyms_cons_ok {ss : List Stmt} {t : SymTab} {k : Str} {v v' : Value} {rest r' : SymTab}
+    (h1 : evalSym ss t v = .ok v') (h2 : evalSyms ss t rest = .ok r') :
+    evalSyms ss t ((k, v) :: rest) = .ok ((k, v') :: r') := by
+  rw [evalSyms_cons, h1, h2]
+
+/-- `evalSyms` keeps the keys, in order -/
+theorem evalSyms_keys {ss : List Stmt} {t : SymTab} : ∀ {x r : SymTab}, evalSyms ss t x = .ok r →
+    r.map (·.1) = x.map (·.1) := by
+  intro x
+  induction x with
+  | nil => intro r h; rw [evalSyms_nil] at h; cases h; rfl
+  | cons kv rest ih =>
+    intro r h
+    obtain ⟨k, v⟩ := kv
+    obtain ⟨v', r', _, h2, rfl⟩ := evalSyms_ok_cons h
+    simp [ih h2]
+
+theorem evalSyms_length {ss : List Stmt} {t x r : SymTab} (h : evalSyms ss t x = .ok r) : r.length = x.length := by
+  have := congrArg List.length (evalSyms_keys h)
+  simpa using this
+
+/-- entry by entry: the `i`-th entry of the result is the `i`-th entry through `evalSym` -/
+theorem evalSyms_getElem? {ss : List Stmt} {t : SymTab} : ∀ {x r : SymTab}, evalSyms ss t x = .ok r →
+    ∀ (i : Nat) (k : Str) (v : Value), x[i]? = some (k, v) → ∃ v', evalSym ss t v = .ok v' ∧ r[i]? = some (k, v') := by
+  intro x
+  induction x with
+  | nil => intro r _ i k v hx; simp at hx
+  | cons kv rest ih =>
+    intro r h i k v hx
+    obtain ⟨k0, v0⟩ := kv
+    obtain ⟨v', r', h1, h2, rfl⟩ := evalSyms_ok_cons h
+    cases i with
+    | zero => simp at hx; obtain ⟨rfl, rfl⟩ := hx; exact ⟨v', h1, by simp⟩
+    | succ j => simpa using ih h2 j k v (by simpa using hx)
+
+/-- lookups: the entry found under `k` is the old entry through `evalSym` -/
+theorem evalSyms_get? {ss : List Stmt} {t : SymTab} : ∀ {x r : SymTab}, evalSyms ss t x = .ok r →
+    ∀ (k : Str), (x.get? k = none ∧ r.get? k = none) ∨
+      ∃ v v', x.get? k = some v ∧ evalSym ss t v = .ok v' ∧ r.get? k = some v' := by
+  intro x
+  induction x with
+  | nil => intro r h k; rw [evalSyms_nil] at h; cases h; left; exact ⟨rfl, rfl⟩
+  | cons kv rest ih =>
+    intro r h k
+    obtain ⟨k0, v0⟩ := kv
+    obtain ⟨v', r', h1, h2, rfl⟩ := evalSyms_ok_cons h
+    by_cases hk : (k0 == k) = true
+    · right; exact ⟨v0, v', by simp [SymTab.get?, List.find?, hk], h1, by simp [SymTab.get?, List.find?, hk]⟩
+    · have e1 : SymTab.get? ((k0, v0) :: rest) k = SymTab.get? rest k := by simp [SymTab.get?, List.find?, hk]
+      have e2 : SymTab.get? ((k0, v') :: r') k = SymTab.get? r' k := by simp [SymTab.get?, List.find?, hk]
+      rw [e1, e2]; exact ih h2 k
+
+theorem evalSyms_append_ok {ss : List Stmt} {t : SymTab} : ∀ {x y r : SymTab}, evalSyms ss t (x ++ y) = .ok r →
+    ∃ rx ry, evalSyms ss t x = .ok rx ∧ evalSyms ss t y = .ok ry ∧ r = rx ++ ry := by
+  intro x
+  induction x with
+  | nil => intro y r h; exact ⟨[], r, rfl, h, rfl⟩
+  | cons kv rest ih =>
+    intro y r h
+    obtain ⟨k, v⟩ := kv
+    rw [List.cons_append] at h
+    obtain ⟨v', r', h1, h2, rfl⟩ := evalSyms_ok_cons h
+    obtain ⟨rx, ry, e1, e2, rfl⟩ := ih h2
+    exact ⟨(k, v') :: rx, ry, evalSyms_cons_ok h1 e1, e2, rfl⟩
+
+/-- a table without expression entries (no EQU defined by an expression) is left as it is -/
+theorem evalSyms_plain (ss : List Stmt) (t : SymTab) : ∀ (x : SymTab),
+    (∀ kv ∈ x, ∀ l r op m ae, kv.2 ≠ .expr l r op m ae) → evalSyms ss t x = .ok x := by
+  intro x
+  induction x with
+  | nil => intro _; rfl
+  | cons kv rest ih =>
+    intro h
+    obtain ⟨k, v⟩ := kv
+    exact evalSyms_cons_ok (evalSym_plain ss t (h (k, v) (by simp))) (ih (fun kv hkv => h kv (by simp [hkv])))
+
 /-! ### the per-statement step of `fixAll`: `fixOne` then `fitWidth` -/
 
 /-- one step of the `fixAll` loop: `fix_addresses`, then `fit_operand_width` -/
